@@ -11,7 +11,7 @@ wt=$(mktemp -d /dev/shm/mt_XXXXXX); rmdir "$wt"
 git -C /repo worktree add -q --detach "$wt" HEAD || exit 2
 out=$(mktemp -d /dev/shm/mtout_XXXXXX)
 trap 'git -C /repo worktree remove --force "$wt" 2>/dev/null; rm -rf "$out"' EXIT
-git -C "$wt" apply "$patch" || { echo "PATCH DOES NOT APPLY: $patch"; exit 2; }
+git -C "$wt" apply "$patch" 2>/dev/null || git -C "$wt" apply --3way "$patch" || { echo "PATCH DOES NOT APPLY: $patch"; exit 2; }
 if [ $suite = 1 ]; then "$HERE/tools/suite.sh" "$wt" | tail -c 80; fi
 for id in "$@"; do
   VERIF_REPO="$wt" VERIF_OUT="$out" "$HERE/bin/check" "$id" --tier $tier > "$out/$id.log" 2>&1; rc=$?
